@@ -3,7 +3,7 @@
 // on), prints one canonical result line per case.  See DESIGN.md App. B and
 // tools/caselang.md for the case language.
 mod bytespec;
-use bytespec::{hex, parse as bytes, unhex};
+use bytespec::{hex, parse as bytes};
 
 use blake3::hazmat::{self, HasherExt};
 use blake3::platform::Platform;
@@ -547,7 +547,9 @@ fn run_case(line: &str) -> String {
 }
 
 fn main() {
-    std::panic::set_hook(Box::new(|_| {}));
+    if std::env::var_os("VERIF_PANIC_MSG").is_none() {
+        std::panic::set_hook(Box::new(|_| {}));
+    }
     let stdin = std::io::stdin();
     let stdout = std::io::stdout();
     let mut w = std::io::BufWriter::new(stdout.lock());
